@@ -245,8 +245,8 @@ type ipSearch struct {
 	target  ipred
 	avoid   ipred
 	edgeOK  func(from *ssa.BasicBlock, succIdx int) bool
-	up      bool // continue in the callers after the start function returns
-	flat    bool // do not descend into callees (plain intraprocedural search)
+	up      bool          // continue in the callers after the start function returns
+	flat    bool          // do not descend into callees (plain intraprocedural search)
 	stop    *ssa.Function // with up: this function's returns end the activity
 	seen    map[string]bool
 	found   ssa.Instruction
@@ -297,17 +297,6 @@ func (s *ipSearch) scanF(b *ssa.BasicBlock, from int, stack []*ssa.Call, facts *
 			}
 			if s.up && b.Parent() != s.stop && !s.p.activityRoot(b.Parent()) {
 				for _, cs := range s.p.syncCallers(b.Parent()) {
-					if s.p.loopRoots != nil && s.p.loopRoots[outermost(cs.Parent())] && s.p.rootsAreExits {
-						// returning into an activity root: the activity ends here
-						if s.avoid != nil && s.avoid(in) {
-							continue
-						}
-						if s.target != nil && s.target(in) {
-							s.found = in
-							return true
-						}
-						continue
-					}
 					nf := retFacts(cs, in.(*ssa.Return), nil)
 					key := fmt.Sprintf("up%p|%s", cs, factsKey(nf))
 					if s.seen[key] {
@@ -322,6 +311,17 @@ func (s *ipSearch) scanF(b *ssa.BasicBlock, from int, stack []*ssa.Call, facts *
 			}
 		}
 		curStack = stack
+		if s.up && s.p.boundary != nil && s.p.boundary[in] {
+			// the event loop takes its next event here: the activity being analysed has ended
+			if s.avoid != nil && s.avoid(in) {
+				return false
+			}
+			if s.target != nil && s.target(in) {
+				s.found = in
+				return true
+			}
+			return false
+		}
 		if s.avoid != nil && s.avoid(in) {
 			return false
 		}
